@@ -38,6 +38,11 @@ def proposal_filter(cx):
         key = cx.site_key(s, "write:" + PCI)
         v = write_value(cx, s)
         ok = contains(call("~RaftLog::last_index", ANY), v) and contains(("int", 1), v) and all(x[1] == "Add" for x in walk(v) if x[0] == "bin") and any(x[0] == "tfield" and x[2] == 0 for x in walk(v))
+        if not ok:
+            # second form: the counter already starts at one — `(1u64..).zip(entries)` / `entries.zip(1u64..)`; then
+            # pending_conf_index := last_index + k
+            from ..idioms import is_last_index_plus_position
+            ok = is_last_index_plus_position(cx.prog, s.fn, v)
         cx.check(ok, key + ":value", "pending_conf_index := last_index + i + 1, the index the entry will get (found %s)" % show(v), s, value=show(v))
 
         def no_pending(l):
@@ -336,6 +341,13 @@ def apply_dispatch(cx):
                     ok = ok and last <= frozenset(["Auto", "Implicit"])
                 elif flag == ("bool", False):
                     ok = ok and last == frozenset(["Explicit"])
+                elif flag[0] == "bin" and flag[1] in ("Eq", "Ne") and any(is_f(x, "ConfChangeV2.transition") for x in flag[2:4]) and any(x[0] == "enum" and x[1].endswith("ConfChangeTransition") for x in flag[2:4]):
+                    # the flag is computed by comparing the transition: evaluate it for each transition value possible here
+                    lit = [x for x in flag[2:4] if x[0] == "enum"][0][2]
+                    poss = last if tr else frozenset(["Auto", "Implicit", "Explicit"])
+                    for t in poss:
+                        val = (t == lit) if flag[1] == "Eq" else (t != lit)
+                        ok = ok and val == (t in ("Auto", "Implicit"))
                 else:
                     ok = False
             else:
